@@ -19,7 +19,7 @@ PYTHONPATH="$S" timeout 600 /venv/bin/python "$D" > "$S/demo_mut.txt" 2>&1; DM=$
 cd /verif || exit 2
 RES=""
 for C in $ID $EXTRA; do
-  PVM_REPO="$S" PVM_EVIDENCE=/dev/null timeout 1800 ./check "$C" ${TIER:-quick} > "$S/check_$C.txt" 2>&1; RC=$?
+  PVM_REPO="$S" PVM_OUT="$S/pvm_out" PVM_EVIDENCE=/dev/null timeout 1800 ./check "$C" ${TIER:-quick} > "$S/check_$C.txt" 2>&1; RC=$?
   NV=$(grep -c "^VIOLATION" "$S/check_$C.txt")
   RES="$RES \"$C\":{\"rc\":$RC,\"violation_lines\":$NV},"
   if [ -n "${SHOW:-}" ]; then grep -E "^VIOLATION|^  op=|^INCONC" "$S/check_$C.txt" | head -6 | cut -c1-260; fi
